@@ -4,19 +4,20 @@
 # demo fails with it and passes without it; then runs `bin/check PROP quick` against the patched worktree.
 WT=$1; N=$2; PROP=$3; TMO=${4:-60}
 D=$WT/out/$N
+T=$(mktemp -d /tmp/seedchk.XXXXXX)
 cd $WT || exit 2
 git checkout -q -- . ; git apply --check $D/patch.diff || { echo "patch does not apply"; exit 2; }
-g++ -std=c++20 -O1 -g -I$WT/src -I$WT/src/cocls $D/demo.cpp -o /tmp/seed_demo_clean -lpthread 2>/dev/null
-timeout $TMO /tmp/seed_demo_clean >/dev/null 2>&1; echo "demo without change: rc=$?"
+g++ -std=c++20 -O1 -g -I$WT/src -I$WT/src/cocls $D/demo.cpp -o $T/demo_clean -lpthread 2>/dev/null
+timeout $TMO $T/demo_clean >/dev/null 2>&1; echo "demo without change: rc=$?"
 git apply $D/patch.diff
-g++ -std=c++20 -O1 -g -I$WT/src -I$WT/src/cocls $D/demo.cpp -o /tmp/seed_demo_mut -lpthread 2>/dev/null
-timeout $TMO /tmp/seed_demo_mut >/dev/null 2>&1; echo "demo with change: rc=$?"
+g++ -std=c++20 -O1 -g -I$WT/src -I$WT/src/cocls $D/demo.cpp -o $T/demo_mut -lpthread 2>/dev/null
+timeout $TMO $T/demo_mut >/dev/null 2>&1; echo "demo with change: rc=$?"
 # test suite with the change (tests only)
-mkdir -p /tmp/seed_tests; rm -f /tmp/seed_tests/*
+mkdir -p $T/tests; rm -f $T/tests/*
 fail=0
-for t in $WT/src/tests/*.cpp; do b=$(basename $t .cpp); ( g++ -std=c++20 -O2 -DNDEBUG -I$WT/src -I$WT/src/cocls $t -o /tmp/seed_tests/$b -lpthread 2>/dev/null || echo "COMPILE-FAIL $b" ) & done; wait
-for t in $WT/src/tests/*.cpp; do b=$(basename $t .cpp); timeout 120 /tmp/seed_tests/$b >/dev/null 2>&1 || { echo "TEST-FAIL $b"; fail=1; }; done
+for t in $WT/src/tests/*.cpp; do b=$(basename $t .cpp); ( g++ -std=c++20 -O2 -DNDEBUG -I$WT/src -I$WT/src/cocls $t -o $T/tests/$b -lpthread 2>/dev/null || echo "COMPILE-FAIL $b" ) & done; wait
+for t in $WT/src/tests/*.cpp; do b=$(basename $t .cpp); timeout 120 $T/tests/$b >/dev/null 2>&1 || { echo "TEST-FAIL $b"; fail=1; }; done
 echo "tests with change: $( [ $fail = 0 ] && echo all pass || echo failures above)"
 cd /verif && COCLS_REPO=$WT bin/check $PROP quick 2>&1 | grep -E "VIOLATION|held|BROKEN|KNOWN" | cut -c1-200 | head -3
 cd $WT && git checkout -q -- .
-rm -rf /tmp/seed_tests /tmp/seed_demo_clean /tmp/seed_demo_mut
+rm -rf $T
